@@ -15,7 +15,7 @@ LEVEL_TEXT = ('Decides the parts of the property that are visible in source: eve
 LEVEL_NOTE = ('Trusted: Cython-subset front-end, interpreter, class-level transfer functions of libm (sqrt, hypot, log, atan2, copysign per C99 Annex F), float() of a decimal literal is correctly rounded (as strtod). '
               'Not decided: ulp-level accuracy and overflow thresholds for finite arguments.')
 EXPLANATION = ('R20.1 double-factorial literals and index guard; R20.4 integer powers; R20.5 legacy _sqrt_neg_python == principal root; '
-               'R20.6 cf_build_dblcmplx writes (re, im) to slots (0, 1); R20.2 Annex G class tables; R20.7 defining identities on every finite-argument path; R20.8 module constants; R20.9 exponent ranges of the intermediates of the interpreted square root over all finite doubles; R20.10 the interpreted (2l+1)!! table of the legacy starting conditions is exact (module-level construction interpreted, int64 wrap-around modelled).')
+               'R20.6 cf_build_dblcmplx writes (re, im) to slots (0, 1); R20.2 Annex G class tables; R20.7 defining identities on every finite-argument path; R20.8 module constants; R20.9 exponent ranges of the intermediates of the interpreted square root over all finite doubles; R20.12 equality predicates of the interpreted helpers compare exact functions of the arguments, not rounded intermediates; R20.10 the interpreted (2l+1)!! table of the legacy starting conditions is exact (module-level construction interpreted, int64 wrap-around modelled).')
 
 
 def dfact(n):
@@ -205,6 +205,7 @@ def run(chk):
     from .common import precision_lint
     precision_lint(chk, repo, 'R20.11', ['TidalPy/utilities/math/*.pyx'], floor_funcs=3)
     legacy_double_factorials(chk, repo)
+    exact_equality_predicates(chk, repo)
     chk.floor('R20.1', 50); chk.floor('R20.4', 10); chk.floor('R20.5', 21)
 
     from . import c20_annexg
@@ -397,6 +398,51 @@ def constants(chk, repo):
     kd = lits.get('SCALED_CEXP_K_D')
     chk.ob('R20.8', 'SCALED_CEXP_K_D == 1799 (the double-precision scaling exponent of the reference implementation)', isinstance(kd, ast.Constant) and kd.value == 1799, f'{ast.unparse(kd) if kd is not None else None}',
            mc.where(kd) if kd is not None else mc.rel(), key='R20.8|SCALED_CEXP_K_D', method='AST')
+
+
+# ------------------------------------------------------------------------------------------------ R20.12 equality predicates test exact quantities
+def exact_equality_predicates(chk, repo):
+    """In floating point `a == b` between *computed* quantities holds on a set of non-zero measure (|z| == |Re z| as soon as Im z is absorbed by the rounding of the sum), whereas
+    the real-number identities the other rules decide cannot tell it from `Im z == 0`.  In the interpreted math helpers every `==` / `!=` must therefore compare quantities that
+    are exact functions of the arguments: an argument, its real / imaginary part, absolute value, sign, negation or conjugate, a constant -- never the result of an addition,
+    multiplication, division, power or root."""
+    EXACT_CALLS = ('real', 'imag', 'abs', 'absolute', 'fabs', 'conj', 'conjugate', 'sign', 'negative', 'float', 'complex', 'asarray', 'isnan', 'isinf', 'isfinite', 'signbit', 'copysign')
+    nfun = 0
+    for path in ('TidalPy/utilities/math/special.py',):
+        mod = repo.by_path(path)
+        for f in [n_ for n_ in ast.walk(mod.tree) if isinstance(n_, ast.FunctionDef)]:
+            nfun += 1
+            params = {a_.arg for a_ in f.args.args + f.args.kwonlyargs}
+            assigns = {}
+            for st in ast.walk(f):
+                if isinstance(st, ast.Assign):
+                    for t_ in st.targets:
+                        if isinstance(t_, ast.Name): assigns.setdefault(t_.id, []).append(st.value)
+                elif isinstance(st, ast.AugAssign) and isinstance(st.target, ast.Name):
+                    assigns.setdefault(st.target.id, []).append(ast.BinOp(left=st.target, op=st.op, right=st.value))
+
+            def exact(e, depth=0):
+                if depth > 12: return False
+                if isinstance(e, ast.Constant): return True
+                if isinstance(e, ast.Name):
+                    if e.id in assigns: return all(exact(v_, depth + 1) for v_ in assigns[e.id])
+                    return True              # a parameter or a module constant
+                if isinstance(e, ast.UnaryOp) and isinstance(e.op, (ast.USub, ast.UAdd)): return exact(e.operand, depth + 1)
+                if isinstance(e, ast.Attribute) and e.attr in ('real', 'imag'): return exact(e.value, depth + 1)
+                if isinstance(e, ast.Call):
+                    nm = ast.unparse(e.func).split('.')[-1]
+                    return nm in EXACT_CALLS and all(exact(a_, depth + 1) for a_ in e.args)
+                return False
+            bad = []
+            for c in [n_ for n_ in ast.walk(f) if isinstance(n_, ast.Compare)]:
+                sides = [c.left] + list(c.comparators)
+                for op_, l_, r_ in zip(c.ops, sides, sides[1:]):
+                    if isinstance(op_, (ast.Eq, ast.NotEq)) and not (exact(l_) and exact(r_)):
+                        bad.append(f'line {c.lineno}: `{ast.unparse(c)[:60]}` compares a rounded intermediate')
+            chk.ob('R20.12', f'{path}:{f.name}: every == / != compares exact functions of the arguments (no rounded intermediate)', not bad, '; '.join(bad[:3]), mod.where(f),
+                   key=f'R20.12|{path}|{f.name}', method='exactness analysis of the operands of equality predicates (def-use over the function body)')
+    if nfun < 2:
+        raise AnalysisError('exactness lint: special.py holds fewer than two functions')
 
 
 # ------------------------------------------------------------------------------------------------ R20.10 the interpreted (2l+1)!! table of the legacy starting conditions
